@@ -20,7 +20,9 @@ EXTENDS Valid, SequencesExt, FiniteSetsExt, Functions, TLC
 
 CONSTANTS GwVer,       \* "1.4" .. "2.2"   configured protocol version
           Flavour,     \* "sync" (threaded: job queue + pump) | "async" (inline)
-          MaxId        \* largest node id an id response may carry (254)
+          MaxId,       \* largest node id an id response may carry (254)
+          IdGiveUpFree \* TRUE: an id request may always go unanswered (C06 only states safety);
+                       \* FALSE: only when the top of the id space is reached (C05 prescribes a reply)
 
 VARIABLES nodes,   \* [known node id -> NodeRec]
           ota,     \* [fw : set of <<type, version>>, sess : [node id -> [st, fw]]]
@@ -178,7 +180,7 @@ HIdReq(nd, o, l, ch) ==
            <<Cmd(l.h.n, l.h.c, INTERNAL, 0, I_ID_RESP, ToString(ch.id))>>, <<CmdOfLine(l)>>)
 IdChoiceOk(nd, iss, id) ==
   \/ id \in FreeIds(nd, iss)
-  \/ id = 0 /\ (FreeIds(nd, iss) = {} \/ MaxKnown(nd) >= MaxId)
+  \/ id = 0 /\ (IdGiveUpFree \/ FreeIds(nd, iss) = {} \/ MaxKnown(nd) >= MaxId)
 
 HWakeThen(nd, o, l, ch, hbUpdate) ==   \* heartbeat response / pre-sleep notification
   LET n == l.h.n IN
